@@ -37,7 +37,7 @@ TECHNIQUE = "TLA+ spec + TLC (ideal mechanism verified, as-built mechanism refut
 DESIGN_REF = "DESIGN.md section 10"
 
 os.environ.setdefault("JAVA_TOOL_OPTIONS", "-XX:ParallelGCThreads=2")
-WRAP = ["-Wl,--wrap=dlopen,--wrap=dlclose,--wrap=dlsym,--wrap=dlerror", "-Wl,--export-dynamic-symbol=x05_record"]
+WRAP = ["-Wl,--wrap=dlopen,--wrap=dlclose,--wrap=dlsym,--wrap=dlerror,--wrap=exit", "-Wl,--export-dynamic-symbol=x05_record"]
 VARIANTS = {1: ("full", ["-DHAS_INIT", "-DINIT_RET=1", "-DHAS_RUN", "-DHAS_DONE", "-DDONE_RET=1"]),
             2: ("noinit", ["-DHAS_RUN", "-DHAS_DONE", "-DDONE_RET=1"]),
             3: ("initfail", ["-DHAS_INIT", "-DINIT_RET=0", "-DHAS_RUN", "-DHAS_DONE", "-DDONE_RET=1"]),
@@ -402,16 +402,16 @@ def run(ctx):
     t0 = phase(ctx, "asbuilt_refutations", t0)
     # one object, the whole catalogue, fault schedules, NULL arguments
     cover(ctx, exe, pf, env, "ModuleLife_solo_quick.cfg" if q else "ModuleLife_solo_thorough.cfg", "solo", 2 if q else 3,
-          ALL_OPS, walks=(150, 40) if q else (1500, 60), pairs=(3000 if q else 150000),
-          levels=(1, 3, 5), lvl_walks=(60, 40) if q else (600, 60))
+          ALL_OPS, walks=(150, 40) if q else (600, 60), pairs=(3000 if q else 40000),
+          levels=(1, 3, 5), lvl_walks=(60, 40) if q else (300, 60))
     t0 = phase(ctx, "solo", t0)
     # two objects: dup then mutation of either side, two libraries in the lookup scope, comp
     cover(ctx, exe, pf, env, "ModuleLife_duo_quick.cfg" if q else "ModuleLife_duo_thorough.cfg", "duo", 1 if q else 2,
-          (ALL_OPS | {"dup", "comp"}) - {"null_sym", "null_fname"}, walks=(150, 40) if q else (1500, 60), pairs=(3000 if q else 100000),
-          levels=(1, 5) if q else (1, 3, 5), lvl_walks=(40, 40) if q else (400, 60))
+          (ALL_OPS | {"dup", "comp"}) - {"null_sym", "null_fname"}, walks=(150, 40) if q else (600, 60), pairs=(3000 if q else 40000),
+          levels=(1, 5) if q else (1, 3, 5), lvl_walks=(40, 40) if q else (200, 60))
     if not q:      # the vetoing library beside another object (kept out of the first two-object scope to bound it)
         cover(ctx, exe, pf, env, "ModuleLife_duo_veto.cfg", "duo-veto", 1, (ALL_OPS | {"dup", "comp"}) - {"null_sym", "null_fname"},
-              walks=(500, 60), pairs=50000, levels=(1, 5), lvl_walks=(200, 60))
+              walks=(300, 60), pairs=15000, levels=(1, 5), lvl_walks=(100, 60))
     t0 = phase(ctx, "duo", t0)
     # the handle on the program itself (dlopen(NULL)) through new / init / done / dup / del
     cover(ctx, exe, pf, env, "ModuleLife_main.cfg", "main", 1, {"new", "done", "del", "init", "dup", "load", "unload"}, flags="main",
